@@ -588,7 +588,32 @@ def an_C17_twin(mod, name, paths, fq, explore):
     return [rec(ob, 'refuted', 'token structure + z3-5.1', ms, fq, bad, viol=viol)]
 
 
-ANALYSES = {'C07': an_C07, 'C09': an_C09, 'C10': an_C10, 'C18': an_C18, 'C17': an_C17_twin}
+def an_C04_window(mod, name, paths, fq):
+    """S-window: a decoder returns a trace object whose event list is the delivered window itself"""
+    ob = 'C04/window/%s.%s' % (mod, name)
+    bad = None
+    n = 0
+    for s in paths:
+        if s.outcome != 'return':
+            continue
+        n += 1
+        r = s.result
+        if not isinstance(r, Obj) or 'ktraces' not in r.fields:
+            bad = 'decoder returned %s' % type(r).__name__
+        elif r.fields['ktraces'] is not s.window.events:
+            kt = r.fields['ktraces']
+            o = getattr(kt, 'origin', None)
+            if name == 'TRACE_STRING_GLOBAL' and isinstance(o, tuple) and o[0] == 'loop-havoc' and o[1] is s.window.events:
+                continue      # re-slices its window up to the first END-bit record: stated and proved in C08
+            bad = 'ktraces is not the delivered window'
+    if n == 0:
+        return []
+    if bad:
+        return [rec(ob, 'refuted', 'symbolic execution', 0, fq, bad, viol={'request': None, 'what': '%s: %s' % (name, bad), 'solver_output': bad})]
+    return [rec(ob, 'proved', 'symbolic execution (object identity on %d paths)' % n, 0, fq)]
+
+
+ANALYSES = {'C04': an_C04_window, 'C07': an_C07, 'C09': an_C09, 'C10': an_C10, 'C18': an_C18, 'C17': an_C17_twin}
 
 
 # =============================================================================== pool
